@@ -558,6 +558,7 @@ var hostileTokens = []string{
 	"select", "plural", "ordinal", "nomarkup", "value", "one", "other", "trimwhitespace", "true", "false", "character", "name",
 	"[nomarkup]\xe3\x81", "[nomarkup]\xff\xfe\xfd", "[nomarkup]é\xc3",
 	"[select value=a a=\"%\\\\\"/]", "[plural value=1 one=\"\\\\%\" other=\"%\\\\\"/]", "[ordinal value=2 two=\"%\\\\\" other=\"\\\\\"/]", "[select value=% %=\"%%\"/]",
+	"\\[[b/] x", "\\][pause/] and then", "\\[[b/]  y", "x \\[[wave/] z",
 	"[select value=a a=\"\"/]", "[plural value=1.5 other=\"%\"/]", "[ordinal value=1 /]", "[select a=1/]", "[plural value=x one=\"a\"/]",
 	"0", "12", "1.5", ".", "%", "[/]", "[/", "/]", "[a]", "[/a]", "[b/]", "[nomarkup]", "[/nomarkup]", "[select value=", "\\[", "\\]", "٣", "  ", "　", " ",
 }
